@@ -275,8 +275,17 @@ def v_context(p):
           isinstance(v, ast.Call) and ast.unparse(v.func) in ('list', 'dict', 'set', 'collections.deque', 'deque',
                                                              'collections.defaultdict', 'defaultdict')):
         shared.append(ast.unparse(st)[:60])
+    # threading.local keeps per-thread values in the per-thread instance __dict__: an attribute declared in __slots__ (or
+    # served by a class-level descriptor / property) lives in the object itself and is shared by every thread
+    if isinstance(st, (ast.Assign, ast.AnnAssign)) and any(
+        ast.unparse(t) == '__slots__' for t in (st.targets if isinstance(st, ast.Assign) else [st.target])):
+      shared.append(ast.unparse(st)[:60])
+    if isinstance(st, ast.FunctionDef) and (st.name in ('__getattr__', '__getattribute__', '__setattr__') or any(
+        ast.unparse(d).split('.')[-1] in ('property', 'setter', 'cached_property') for d in st.decorator_list)):
+      shared.append(f'def {st.name} (attribute access no longer goes to the per-thread __dict__)')
   p.oblige('ctx.thread.classattrs', [], z3.BoolVal(not shared), kind='frame', fn='BackendChoice',
-           detail=f'BackendChoice has no class-level mutable container (shared by every thread): {shared}')
+           detail='BackendChoice has no class-level mutable container, __slots__ or attribute hook (state outside the per-thread '
+                  f'__dict__ is shared by every thread): {shared}')
   # every store into _BACKEND_CHOICE in the module goes through the .backend attribute
   stores = [n for n in ast.walk(tree) if isinstance(n, (ast.Assign, ast.AugAssign)) and any(
       '_BACKEND_CHOICE' in ast.unparse(t) for t in (n.targets if isinstance(n, ast.Assign) else [n.target]))]
